@@ -426,6 +426,75 @@ def canonicalise_stream(text, sd):
     return text, renamed
 
 
+def split_struct_variants(d):
+    """Normal form for enums of the client layer: a struct-like variant `E::V { a, b, c }` is rewritten as the tuple
+    variant `E::V(V)` holding a struct `V { a, b, c }` (isomorphic: places `(x as V).b` become `((x as V).0).b`, the
+    aggregate `E::V { .. }` becomes `E::V(V { .. })` through a fresh local). Returns the list of (enum, variant) split."""
+    paths = {a["path"] for a in d["adts"]}
+    split = {}      # (enum path, variant name) -> struct path
+    new_adts = []
+    for a in d["adts"]:
+        if a["kind"] != "enum" or _layer(a["path"]) != "client":
+            continue
+        module = a["path"].rsplit("::", 1)[0]
+        for v in a["variants"]:
+            fs = v["fields"]
+            if len(fs) < 2 or any(re.fullmatch(r"\d+", x["name"]) for x in fs):
+                continue
+            sp = module + "::" + v["name"]
+            if sp in paths:
+                continue
+            paths.add(sp)
+            split[(a["path"], v["name"])] = sp
+            new_adts.append({"path": sp, "kind": "struct", "pub": False, "file": a["file"], "line": a["line"], "from_expansion": False, "synthetic": True,
+                             "variants": [{"name": v["name"], "discr": 0, "fields": fs}]})
+            v["fields"] = [{"name": "0", "ty": sp, "pub": False}]
+    if not split:
+        return []
+    d["adts"].extend(new_adts)
+
+    def fix_place(pl):
+        pr = pl["p"]
+        j = 0
+        while j + 1 < len(pr):
+            a_, b_ = pr[j], pr[j + 1]
+            if isinstance(a_, dict) and "dc" in a_ and isinstance(b_, dict) and "f" in b_ and (b_.get("adt"), a_["dc"]) in split:
+                sp = split[(b_["adt"], a_["dc"])]
+                pr.insert(j + 1, {"f": 0, "n": "0", "adt": b_["adt"], "ty": sp})
+                b_["adt"] = sp
+                j += 2
+            j += 1
+
+    def walk(x):
+        if isinstance(x, dict):
+            if "l" in x and "p" in x and isinstance(x["p"], list) and isinstance(x["l"], int):
+                fix_place(x)
+                return
+            for v in x.values():
+                walk(v)
+        elif isinstance(x, list):
+            for v in x:
+                walk(v)
+    for f in d["fns"]:
+        walk(f.get("blocks"))
+        walk(f.get("debug"))
+        for b in f.get("blocks") or []:
+            out = []
+            for st in b["stmts"]:
+                rv = st.get("rv") if st.get("k") == "assign" else None
+                if rv and rv.get("k") == "agg" and rv.get("what") == "adt" and (rv.get("adt"), rv.get("variant")) in split:
+                    sp = split[(rv["adt"], rv["variant"])]
+                    f["locals"].append({"ty": sp, "adt": sp, "user": False})
+                    tmp = len(f["locals"]) - 1
+                    out.append({"k": "assign", "lhs": {"l": tmp, "p": []}, "rv": {"k": "agg", "what": "adt", "adt": sp, "variant": rv["variant"], "vi": 0, "args": [], "fields": rv.get("fields"), "ops": rv["ops"]},
+                                "line": st.get("line", 0), "exp": st.get("exp", False)})
+                    rv["ops"] = [{"k": "move", "pl": {"l": tmp, "p": []}}]
+                    rv["fields"] = ["0"]
+                out.append(st)
+            b["stmts"] = out
+    return sorted(split)
+
+
 def load_canonical(path):
     if path.endswith(".gz"):
         import gzip
@@ -436,6 +505,8 @@ def load_canonical(path):
             text = fh.read()
     # facts are serialised without spaces after separators in the driver; normalise for the textual rewrites
     d = json.loads(text)
+    if split_struct_variants(d):
+        text = json.dumps(d, separators=(",", ":"))
     st = detect_structs(d)
     text2, renamed = canonicalise_structs(text, st)
     if renamed:
